@@ -197,6 +197,16 @@ pub async fn history(mut sim: Sim, o: Opts) -> Result<Value, String> {
                                    "expected": expect.as_ref().map(|p| run.node_of(p))}),
                         );
                     }));
+                    // now and then the application loses interest while the dial is under way
+                    // (the connect() future is dropped); the dial is the network's business
+                    if sim.rng.gen_bool(0.25) {
+                        let d = [1u64, 1, 2, 3, 5][sim.rng.gen_range(0..5)];
+                        sim.sleep_ms(d).await;
+                        if let Some(h) = pending.last() {
+                            h.abort();
+                        }
+                        sim.run.obs(a as i64, "obs.note", json!({"what": "connect() call abandoned", "after_ms": d}));
+                    }
                 }
             }
             35..=44 if alive(&sim, a) => {
